@@ -632,7 +632,7 @@ func init() {
 	register(&CheckDef{
 		ID:    "C20",
 		Title: "A backup taken at any time opens to the state at the time of the backup",
-		Reach: []string{"done", "small-put-after-backup", "big-put-after-backup", "second-backup", "rotated", "batch-committed", "merged", "restarted"},
+		Reach: []string{"done", "small-put-after-backup", "big-put-after-backup", "second-backup", "rotated", "batch-committed", "merged", "restarted", "backup-into-used-directory"},
 		Jobs: func(tier string) []JobSpec {
 			var js []JobSpec
 			add := func(name string, params map[string]int64) {
@@ -647,6 +647,11 @@ func init() {
 			add("mmap-twice-rot", merge(base, p("k", k, "ops", opPut|opDelete, "io", 1, "twice", 1, "dfs_lo", 100, "dfs_hi", 100)))
 			add("std-batch", merge(base, p("k", k, "ops", opPut|opDelete|opBatch, "bmax", 1, "io", 0, "twice", 1)))
 			add("mmap-merge-restart-btree", merge(base, p("k", k+1, "ops", opPut|opMerge|opRestart, "io", 1, "index", 1)))
+			// the same directory is backed up into twice, with Delete / Merge / restart (adoption) in between
+			add("std-reuse-after-merge", merge(base, p("k", 2, "ops", opPut|opDelete, "io", 0, "reuse", 1, "k2", 3, "ops2", opDelete|opMerge|opRestart)))
+			if tier == "thorough" {
+				add("mmap-reuse-after-merge", merge(base, p("k", 2, "ops", opPut|opDelete, "io", 1, "reuse", 1, "k2", 3, "ops2", opPut|opDelete|opMerge|opRestart)))
+			}
 			js = append(js, JobSpec{Name: "witness", Harness: "root", Func: "verifHarnessC20", Params: merge(base, p("k", 1, "ops", opPut, "io", 1, "witness", 1)), Scale: scaleMmap, PageSize: 4096, Witness: true})
 			return js
 		},
@@ -654,7 +659,7 @@ func init() {
 			"real 32 KiB data-file blocks; the 512 MiB mmap granule is scaled to 8192 bytes (two pages) so that a 5000-byte value written after a truncation crosses a page; use-after-Unmap is not modelled",
 			"I/O never fails"},
 		Bounds: map[string]string{
-			"quick":    "K=2 ops (Put/Delete/batch/Merge+restart) on 2 symbolic keys, Backup, then nothing / a 1-byte Put / a 5000-byte Put, optional second Backup; the copy is opened while the source is open and compared with the state at backup time; the source is compared with the model live and after a restart; std and mmap",
+			"quick":    "K=2 ops (Put/Delete/batch/Merge+restart) on 2 symbolic keys, Backup, then nothing / a 1-byte Put / a 5000-byte Put, optional second Backup (into a second directory, or into the SAME directory after Delete/Merge/adopting restart); the copy is opened while the source is open and compared with the state at backup time; the source is compared with the model live and after a restart; std and mmap",
 			"thorough": "K=3",
 		},
 		Outside: "backups racing with writers (Backup holds the write lock); histories longer than K; the real 512 MiB granule",
